@@ -34,7 +34,7 @@ CLAIMED["C02"] = (
     "typestate / who-may-construct rules, listener-before-unlock dominance, lock-gap write-back rule (guard lifetimes from rustc's maybe-init analysis) over all bodies, join-loop exit rules",
     "Decides: executor reachable only with a ComputingLockGuard that is built only in the Vacant arm after insert_entry; waiters create their listener under the "
     "entry/shard lock and release it before awaiting; finishers remove before notify; no store through a re-acquired lock of data computed in an earlier critical "
-    "section without re-check, and no check-then-act on a concurrent map across separate lock acquisitions (whole workspace); lock-table pin predicate; parallel repair results trusted only after all chunks were joined. Not decided: soundness "
+    "section without re-check, and no check-then-act on a concurrent map across separate lock acquisitions (whole workspace); lock-table pin predicate and per-arm return of the lock-table entry closure (Occupied: the lock already in the table; Vacant: the instance inserted); parallel repair results trusted only after all chunks were joined. Not decided: soundness "
     "and termination over all interleavings.",
     "Trusted: rustc nightly MIR + MaybeInitializedPlaces; scc entry_sync holds the bucket lock; Notify semantics; the frozen anchors in engine/qbv/rules/C02.py and lockgap.py.")
 CLAIMED["C03"] = (
@@ -50,7 +50,8 @@ CLAIMED["C06"] = (
     "Decides: wait-for edge registered before the first probe and before any wait; a probe at the head of every retry iteration; probe before wait in exit_scc; "
     "SCC flag marked before CyclicError, error exactly on the cyclic branch; final SCC check before every Ok return; the probe visits every callee of every reached "
     "computation once (visited set keyed by identity, no constant answer, no lock held while descending) and marks the found path; execute_query substitutes the cycle default exactly in-SCC and resumes a caught panic exactly outside; only TrackedEngine::query raises the cyclic payload "
-    "and it caches Ok values only. Not decided: termination / values for all graphs.",
+    "and it caches Ok values only; every completion of query_for (Ok or Err) keeps the registered dependency (defuse); check_callee never unwraps the "
+    "observation of a forward edge (cyclic reads record none). Not decided: termination / values for all graphs.",
     "Trusted: rustc nightly MIR; scc::HashMap insert visibility; the frozen anchors in engine/qbv/rules/C06.py.")
 
 CLAIMED["C07"] = (
@@ -66,7 +67,7 @@ CLAIMED["C09"] = (
     "remove-vacant; physical removal only at pin 0; miss-fill only in the Vacant arm; commit precedes un-pin notifications; un-pinned keys are exactly the "
     "drained keys; staged set operations carry the batch epoch and are replayed sorted by (epoch, issue sequence); no order-sensitive fold iterates an unordered "
     "collection; per-batch coalescing keeps the latest operation; both write families serialised and notified; a staging snapshot applies deferred messages first; "
-    "fetch_entry overlays additions and removals; the staging pin counter is raised under `updated`. Not decided: read-your-writes under all races.",
+    "fetch_entry overlays additions and removals; the staging pin counter is raised under `updated`; the staging log is sampled before the store (get_entry / get). Not decided: read-your-writes under all races.",
     "Trusted: rustc nightly MIR; TinyLFU::entry runs under the bucket lock; C16.a for eviction.")
 CLAIMED["C10"] = (
     "control-dependence on `epoch == expected`, who-may-assign rules on WriteBatch::{active,epoch}, def-use through the pipeline tasks, join-order dominance, signature/impl-table checks",
@@ -78,7 +79,8 @@ CLAIMED["C16"] = (
     "who-may-call rule on the storage map, control-dependence of eviction on the pin predicate and of policy forgetting on the storage's confirmation, message pairing, predicate/field links",
     "Decides: only remove_closure and OccupiedEntry::remove take entries out of the storage; policy eviction requires is_pinned == false on the same locked entry; "
     "the policy forgets a key only after confirmation (else moves it to Pinned); insert/remove/unpin always announce their message and all messages are handled; "
-    "pin predicates read the owner-mutated fields with the right threshold; un-pin only when the counter drops from 1. Not decided: the numeric bound.",
+    "pin predicates read the owner-mutated fields with the right threshold; un-pin only when the counter drops from 1 (and depending on that bool); Lru: region length counters and the "
+    "key's region tag follow every list move (counts, region agreement, leaving region read before the tag is rewritten). Not decided: the numeric bound.",
     "Trusted: rustc nightly MIR; scc entry_sync bucket lock.")
 
 CLAIMED["C08"] = (
@@ -91,7 +93,7 @@ CLAIMED["C11"] = (
     "sibling agreement over the key-construction call sequences of 2 backends x (5 wide-column + 4 member + scan) sites, def-use links buffer->store, discriminant table extraction, length-prefix arithmetic shape",
     "Decides: readers and writers of one column build identical key bytes by construction (same encoder calls, same generic arguments, same buffer handed to the store); "
     "discriminant before/after the key exactly per layout; member keys = len-prefixed key ++ element; scans seek the same prefix with an upper bound derived from it "
-    "and decode elements at 8+len; RocksDB's bound is cut after the incremented byte (prefix successor; the scan has no starts_with filter); per-column discriminants pairwise distinct; column names derive from the full StableTypeID. Not decided: byte-level bound "
+    "and decode elements at 8+len; every site addresses the column kind of its family (WideColumn / KeyOfSet); RocksDB's bound is cut after the incremented byte (prefix successor; the scan has no starts_with filter); per-column discriminants pairwise distinct; column names derive from the full StableTypeID. Not decided: byte-level bound "
     "arithmetic, third-party store behaviour, reopen.",
     "Trusted: rustc nightly MIR (both build shapes); self-delimiting encodings (C12.b); distinct StableTypeIDs (C14).")
 CLAIMED["C12"] = (
@@ -100,14 +102,14 @@ CLAIMED["C12"] = (
     "Decides: every Decode impl (119, incl. macro-generated and derived, smallvec/bitvec on) reads exactly the event language that the Encode impl selected for the "
     "same type writes, including tag constants; repetitions are length-prefixed and variant alternations start with distinct constant tags; emit_X/read_X use the "
     "same wire primitive for all 19 X; for 26 + 15 (derive fixtures) struct/enum types the i-th value written comes from the field the i-th value read is stored into; "
-    "interned handles: C15.c's first-occurrence rule (as C12.f); (C12.g, witness) the const varint encoders emit minimal LEB128 and zig-zag is the standard bijection with its inverse "
+    "interned handles: C15.c's first-occurrence rule (as C12.f); the derive macros on /verif's own universe of 16 shapes (skip first/middle/last, tuple/named, variants, generic; C12.h); (C12.g, witness) the const varint encoders emit minimal LEB128 and zig-zag is the standard bijection with its inverse "
     "on every power-of-two boundary of every width, as computed by rustc's const evaluator. Not decided: the (non-const) varint readers' arithmetic, varint/zig-zag arithmetic, value equality after decoding.",
     "Trusted: rustc nightly MIR; ToOwned pairs encode alike (checked for str/String, [T]/Vec<T>, Path/PathBuf).")
 CLAIMED["C13"] = (
     "framing rules (length before repetition, discriminant before alternation) and order-independence rules over every StableHash MIR body; forbidden-input who-may-call rule; float/integer/seeding def-use rules",
     "Decides: every hashing loop is length-prefixed and every variant alternation discriminant-prefixed; for all unordered collections the outer hasher is untouched "
     "inside the iteration, element hashes are combined only by integer wrapping_add and hashed once after the loop; no address/RandomState/capacity/type_name/clock/"
-    "thread-id input and no slice-level hashing of a ring buffer's halves (layout observers only iterated); NaN normalised, integers little-endian at the right width, seeded builder feeds only the seed, sub_hash copies the outer state. Not decided: collision resistance.",
+    "thread-id input; raw byte runs are length-prefixed; no narrowing cast; derived impls hash every field once and the discriminant (fixture universe, C13.e); no slice-level hashing of a ring buffer's halves (layout observers only iterated); NaN normalised, integers little-endian at the right width, seeded builder feeds only the seed, sub_hash copies the outer state. Not decided: collision resistance.",
     "Trusted: rustc nightly MIR; mem::Discriminant representation; BTree iteration order.")
 
 CLAIMED["C14"] = (
@@ -121,7 +123,7 @@ CLAIMED["C14"] = (
     "Trusted: rustc nightly MIR of associated consts; concat!/module_path! expansion by rustc.")
 CLAIMED["C15"] = (
     "dominance / guard-lifetime rules on the double-checked insertion, who-may-remove rule on typed shards, retain-predicate shape, wire-shape equivalence of Interned, control-dependence of the source/reference decision",
-    "Decides: canonical allocations are created and published only under the hash-selected shard's write lock, in the Vacant arm or after a failed upgrade; lookups return "
+    "Decides: intern / intern_unsized / get_from_hash select the sub-shard by the same accessor of the hash; canonical allocations are created and published only under the hash-selected shard's write lock, in the Vacant arm or after a failed upgrade; lookups return "
     "only upgraded handles; only vacuum's retain(weak.upgrade().is_some()) removes entries; shards are keyed by T's id and downcast to T's shard; Interned encode/decode "
     "languages agree, the full value is written exactly on first insertion of (type id, hash) into the session set, decode interns sources and resolves references via "
     "the plugin's interner. Not decided: canonicity at every instant under all interleavings.",
